@@ -64,6 +64,9 @@ def build_safe_api(w, include=ALL_POS):
         s.method("GetThing", g, thing, http=("get", "/v1/{%s=%s/*}" % (w, coll(w))), sigs=[w])
     if "create" in include:
         s.method("CreateThing", c, thing, http=("post", "/v1/{parent=shelves/*}/things"), body=w, sigs=[f"parent,{w}"])
+        # the body field on URIs WITHOUT any path variable: as the primary binding (collection-level custom verb) and as an additional binding
+        s.method("SearchThings2", c, thing, http=("post", "/v1/things:search"), body=w)
+        s.method("ImportThing", c, thing, http=("post", "/v1/{parent=shelves/*}/things:import"), body=w, bindings=[("post", "/v1/things:import", w)])
     if "update" in include:
         s.method("UpdateThing", u, thing, http=("patch", "/v1/{thing.name=things/*}"), body="thing", sigs=[f"thing.{w}"])
     if "route" in include:
@@ -295,6 +298,11 @@ def check_safe(ctx, w, quick=False):
     rest_calls = [
         R("REST path variable", "get_thing", "GetThing", f"{PKG}.GetThingRequest", {w: coll(w) + "/t1", "other": "o"}, "/v1/{%s=%s/*}" % (w, coll(w))),
         R("REST body", "create_thing", "CreateThing", f"{PKG}.CreateThingRequest", {"parent": "shelves/s", w: thing_val}, "/v1/{parent=shelves/*}/things", w),
+        R("REST body on a URI without variables", "search_things2", "SearchThings2", f"{PKG}.CreateThingRequest", {"parent": "shelves/s", w: thing_val}, "/v1/things:search", w),
+        R("REST body on a URI without variables (body only)", "search_things2", "SearchThings2", f"{PKG}.CreateThingRequest", {w: thing_val}, "/v1/things:search", w),
+        R("REST body, primary binding of two", "import_thing", "ImportThing", f"{PKG}.CreateThingRequest", {"parent": "shelves/s", w: thing_val},
+          "/v1/{parent=shelves/*}/things:import", w),
+        R("REST body on an additional binding without variables", "import_thing", "ImportThing", f"{PKG}.CreateThingRequest", {w: thing_val}, "/v1/things:import", w),
         # the word as a query parameter: required and set / required and left unset (the transport sends it with its default) /
         # nested / beside a body
         R("REST query parameter (required, set)", "list_things", "ListThings", lt, {"parent": "shelves/s", w: "q v&1", "scope": {w: "sq"}, "page_size": 3},
@@ -308,7 +316,7 @@ def check_safe(ctx, w, quick=False):
           "/v1/{parent=shelves/*}/things:search", "thing"),
     ]
     need = {"get_thing": "get", "create_thing": "create", "update_thing": "update", "route": "route", "route_bare": "route",
-            "list_things": "query", "search_things": "query"}
+            "list_things": "query", "search_things": "query", "search_things2": "create", "import_thing": "create"}
     calls = [c for c in calls if need.get(c["method"], "rpc") in include]
     rest_calls = [c for c in rest_calls if need.get(c["method"], "rpc") in include]
     root = genrun.materialise(res)
@@ -1186,7 +1194,7 @@ def t2(ctx):
 def run(ctx):
     ctx.rule = ("finite space: every word of RESERVED_NAMES ∪ keyword.kwlist (+ soft keywords and control-parameter names) x positions "
                 "{top-level field, nested field, flattened parameter (top-level, dotted terminal, dotted non-terminal), http path variable "
-                "(top-level, dotted), http body, http query parameter (REQUIRED set/unset, nested, beside a body), routing field, rpc name, proto file name}; "
+                "(top-level, dotted), http body (URI with and without path variables, primary and additional binding), http query parameter (REQUIRED set/unset, nested, beside a body), routing field, rpc name, proto file name}; "
                 "a proto file named by each keyword / control parameter holding a whole API (request, response, LRO types; the same and another reserved "
                 "word as flattened parameter, path variable, body field; flattened and request=, sync/asyncio gRPC and REST); "
                 "a types module named like a wrapper module the service code imports (operation, operation_async, pagers, extended_operation) x "
